@@ -579,7 +579,7 @@ def problems(draw, profile=None):
         """limits for a value v at the reference point: pattern and slack."""
         pat = draw(wsample(P.get("limit_pats") or [("le", 4), ("ge", 3), ("two", 3), ("eq", 2 if allow_eq else 0), ("free", 1), ("nanl", 1), ("nanu", 1)]))
         neg = pct(P["infeasible_prob"])
-        s1 = draw(st.sampled_from([0.0, 0.125, 0.5, 1.0, 2.0]))
+        s1 = draw(st.sampled_from(P.get("slacks") or [0.0, 0.125, 0.5, 1.0, 2.0]))
         s2 = draw(st.sampled_from([0.125, 0.5, 1.0, 2.0]))
         if neg:
             s1 = -draw(st.sampled_from([0.125, 0.5, 2.0]))
